@@ -115,10 +115,10 @@ func c11DecodeInto(w *rt.W, data []byte, before date.Date) (accepted bool) {
 	in := backing[off : off+len(data) : off+len(data)]
 	copy(in, data)
 	var holder struct {
-		ID   int32
-		R    date.Date
-		Pad  int32
-		R2   date.Date
+		ID  int32
+		R   date.Date
+		Pad int32
+		R2  date.Date
 	}
 	holder.R, holder.R2 = before, before
 	rp := &holder.R
